@@ -78,6 +78,14 @@ func HandleInvite(ctx context.Context, input HandleInviteInput) (PDU, error) {
 		return nil, spec.BadJSON("The room ID in the request path must match the room ID in the invite event JSON")
 	}
 
+	// Check that this is in fact an invite event.
+	if input.InviteEvent.Type() != spec.MRoomMember {
+		return nil, spec.BadJSON("The event must be an m.room.member event")
+	}
+	if membership, merr := input.InviteEvent.Membership(); merr != nil || membership != spec.Invite {
+		return nil, spec.BadJSON("The event membership must be 'invite'")
+	}
+
 	// Check that the event is signed by the server sending the request.
 	redacted, err := verImpl.RedactEventJSON(input.InviteEvent.JSON())
 	if err != nil {
